@@ -331,7 +331,46 @@ func c03RunOnce(work string, c c03Case, inputs []e2.InputSpec, o e2.OutputSpec) 
 
 func c03Check(c c03Case) []vlib.Violation { return c03CheckN(nil, c, 6) }
 
+// c03AvoidPHPConverterHang: same precaution as C07's (c07AvoidPHPConverterHang):
+// PHP converters, veneers and a model that may lead back to itself (text inputs
+// are not analysed: they count as such) do not go together in a check that has
+// no watchdog.
+func c03AvoidPHPConverterHang(run *vlib.Run, c *c03Case) {
+	if !c.Config.Converters || !c.Config.Builders || !contains(c.Languages, "php") || (len(c.Config.Veneers) == 0 && len(c.VeneerDirs) == 0) {
+		return
+	}
+	recursive := len(c.RawInputs) > 0
+	for _, in := range c.Inputs {
+		if in.Model != nil && modelHasRecursiveStruct(in.Model) {
+			recursive = true
+		}
+	}
+	if !recursive {
+		return
+	}
+	count(run, "excluded:php_converters_with_veneers_on_a_recursive_model", 1)
+	var kept []string
+	for _, l := range c.Languages {
+		if l != "php" {
+			kept = append(kept, l)
+		}
+	}
+	if len(kept) == 0 {
+		c.Config.Converters = false
+		return
+	}
+	c.Languages = kept
+	var inspect []string
+	for _, l := range c.Inspect {
+		if l != "php" {
+			inspect = append(inspect, l)
+		}
+	}
+	c.Inspect = inspect
+}
+
 func c03CheckN(run *vlib.Run, c c03Case, repeats int) []vlib.Violation {
+	c03AvoidPHPConverterHang(run, &c)
 	var out []vlib.Violation
 	work := workDir("c03")
 	defer removeAll(work)
